@@ -69,6 +69,8 @@ def scenarios():
     s.append({"name": "restart-with-key", "init": {G[0] + ".key": full0}, "issued": 1, "latched": G[0], "keys": k, "doc": "v1", "polls": [P()]})
     s.append({"name": "key-rotation", "init": {G[0] + ".key": full0}, "issued": 1, "latched": G[0], "keys": k, "doc": "v1",
               "polls": [P(), P(rotate=True)]})
+    s.append({"name": "key-rotation-named-guid", "init": {G[0] + ".key": full0}, "issued": 1, "latched": G[0], "keys": k, "doc": "v1",
+              "polls": [P(), P(guid=G[4])]})
     s.append({"name": "unreadable-local-key", "init": {G[0] + ".key": full0[:97]}, "issued": 1, "latched": G[0], "keys": k, "doc": "v1", "polls": [P()]})
     s.append({"name": "acquire-answer-lost", "init": {}, "issued": 0, "latched": None, "keys": k, "doc": "v1", "polls": [P(acq=1), P()]})
     s.append({"name": "attest-answer-lost", "init": {}, "issued": 0, "latched": None, "keys": k, "doc": "v1", "polls": [P(att=1), P()]})
@@ -721,7 +723,7 @@ def run(ctx):
         "evaluations": n_killed + len(scns) + codec_cases,
         "distinct_nontrivial": sum(len(v) for v in matched_states.values()),
         "traces_validated_against_impl": len(scns) - len({d["case"].get("scenario") for d in disagreements if isinstance(d.get("case"), dict) and d["case"].get("scenario")}),
-        "rule": "11 scenarios (fresh latch v1.0 / v2.0, restart with key, rotation, unreadable local key, foreign guid, acquire answer lost, "
+        "rule": "12 scenarios (fresh latch v1.0 / v2.0, restart with key, rotation (latch dropped / other guid named), unreadable local key, foreign guid, acquire answer lost, "
                 "attest answer lost, attest refused, status error, rename fails) x SIGKILL on entering the N-th call of each of "
                 "openat/write/rename/read/statx on the key files and socket/connect/writev/recvfrom/shutdown (%s), then restart on the "
                 "surviving directory; the observed (key directory, host latch, issued count, request log) must be one of the model's "
